@@ -355,12 +355,30 @@ def _flood(r):
     return (len(r.err) + len(r.out)) >= (1 << 20)
 
 
-def oracle(cfg, data, want_reject=False, label=""):
-    """Run one input through both builds.  -> record dict."""
+def oracle(cfg, data, want_reject=False, label="", extra=None):
+    """Run one input through both builds.  -> record dict.  extra: sibling files {name: bytes} of a multi-file input."""
     src = os.path.join(cfg["work"], "i.nano")
     out = os.path.join(cfg["work"], "o.nvm")
     with open(src, "wb") as f:
         f.write(data)
+    written = []
+    for name, content in sorted((extra or {}).items()):
+        if name == "i.nano" or "/" in name:
+            continue
+        with open(os.path.join(cfg["work"], name), "wb") as f:
+            f.write(content)
+        written.append(os.path.join(cfg["work"], name))
+    try:
+        return _oracle(cfg, data, src, out, want_reject, label)
+    finally:
+        for w in written:
+            try:
+                os.unlink(w)
+            except OSError:
+                pass
+
+
+def _oracle(cfg, data, src, out, want_reject, label):
     big = len(data) > ms.MAX_INPUT
     cpu = 2 * CPU if big else CPU
     events = []          # (key, text): refute the property
@@ -504,35 +522,57 @@ def _seed(cfg, i):
 
 
 def make_input(cfg, case):
-    """case descriptor -> (mutator label, bytes, want_reject, label)"""
+    """case descriptor -> (mutator label, bytes, want_reject, label, extra files or None)"""
     import random
     kind = case[0]
     if kind == "ctrl":
-        return "control", _seed(cfg, case[1])[0], False, ""
+        return "control", _seed(cfg, case[1])[0], False, "", None
     if kind == "mut":
         _, name, si, s = case
         d, toks = _seed(cfg, si)
         rng = random.Random(s)
         fn = ms.havoc if name == "havoc" else ms.MUTATORS[name]
-        return name, fn(d, toks, rng)[:ms.MAX_INPUT], False, ""
+        out = fn(d, toks, rng)
+        return name, (out if name == "ident_length" else out[:ms.MAX_INPUT]), False, "", None
     if kind == "trunc64":
-        return "trunc64", _seed(cfg, case[1])[0][:case[2]], False, ""
+        return "trunc64", _seed(cfg, case[1])[0][:case[2]], False, "", None
     if kind == "trunctok":
-        return "trunc_token", _seed(cfg, case[1])[0][:case[2]], False, ""
+        return "trunc_token", _seed(cfg, case[1])[0][:case[2]], False, "", None
+    if kind == "identlen":
+        _, si, k, length, everywhere = case
+        d, toks = _seed(cfg, si)
+        return "ident_length_enum", ms.stretch(d, toks, k, length, everywhere), False, "", None
+    if kind == "delclose":
+        d, toks = _seed(cfg, case[1])
+        s0, e0, _k = toks[case[2]]
+        return "delete_closer_enum", d[:s0] + d[e0:], False, "", None
+    if kind == "multi":
+        files = ms.MULTI[case[1]]
+        return "multi_file", files["i.nano"], False, "", files
     if kind == "soup":
-        return "soup", ms.soup(random.Random(case[1])), False, ""
+        return "soup", ms.soup(random.Random(case[1])), False, "", None
     if kind == "hostile":
-        return "hostile", ms.HOSTILE[case[1]], False, ""
+        return "hostile", ms.HOSTILE[case[1]], False, "", None
     if kind == "depth":
         _, g, d, limit = case
         builder, nesting, valid = ms.DEPTH_GENERATORS[g]
-        return "depth:" + g, builder(d), bool(nesting and d > limit), g
+        return "depth:" + g, builder(d), bool(nesting and d > limit), g, None
     if kind == "file":
         keys = tuple(case[2] if len(case) > 2 else ()) + tuple(case[3] if len(case) > 3 else ())
         key = ([k for k in keys if k.startswith("depth-limit-not-enforced|")] + [""])[0]
         want = key.startswith("depth-limit-not-enforced|")
         with open(case[1], "rb") as f:
-            return "witness", f.read(), want, key.split("|", 1)[1] if want else ""
+            data = f.read()
+        extra = None
+        wdir = os.path.dirname(case[1])
+        if os.path.basename(case[1]) == "i.nano":
+            # multi-file witness: a directory whose main file is i.nano; the other files are its siblings
+            extra = {}
+            for n in sorted(os.listdir(wdir)):
+                if n != "i.nano" and os.path.isfile(os.path.join(wdir, n)):
+                    with open(os.path.join(wdir, n), "rb") as f:
+                        extra[n] = f.read()
+        return "witness", data, want, key.split("|", 1)[1] if want else "", extra
     raise ValueError(kind)
 
 
@@ -545,8 +585,10 @@ def _worker(arg):
     out = []
     kept = set()
     for case in cases:
-        mut, data, want, label = make_input(cfg, case)
-        rec = oracle(cfg, data, want, label)
+        mut, data, want, label, extra = make_input(cfg, case)
+        rec = oracle(cfg, data, want, label, extra)
+        if extra and rec["events"]:
+            rec.setdefault("detail", {}).update({"siblings/" + n: c for n, c in extra.items() if n != "i.nano"})
         rec["mut"] = mut
         rec["case"] = case
         rec["size"] = len(data)
@@ -611,6 +653,10 @@ def _plan(ctx, seeds, limit):
         cases.append(("ctrl", i))
     for name in sorted(ms.HOSTILE):
         cases.append(("hostile", name))
+    for name in sorted(ms.MULTI):
+        cases.append(("multi", name))
+    name_idx = {s[0]: i for i, s in enumerate(seeds)}
+    prio = [name_idx["gen:" + n] for n in ms.PRIORITY_SEEDS if "gen:" + n in name_idx]
     depths = list(DEPTHS) + [limit - 1, limit, limit + 1]
     if not ctx.quick():
         depths += list(DEPTHS_THOROUGH)
@@ -628,7 +674,7 @@ def _plan(ctx, seeds, limit):
         for off in range(64, ln, 64):
             cases.append(("trunc64", i, off))
     # truncation at every token boundary of small seeds
-    small = list(gen_idx)
+    small = [i for i in gen_idx if i not in prio]
     if not ctx.quick():
         small += sorted(repo_idx, key=lambda i: seeds[i][3])[:40]
     tb = []
@@ -637,7 +683,38 @@ def _plan(ctx, seeds, limit):
         for (s, e, k) in ms.tokenize(with_data):
             tb.append(("trunctok", i, e))
     rng.shuffle(tb)
-    cases.extend(tb[:ctx.n(600, len(tb))])
+    cases.extend(tb[:ctx.n(300, len(tb))])
+    # priority seeds (generic types, qualified names, contracts): enumerated in both tiers -
+    # every token boundary, every closing bracket deleted, every identifier / string stretched
+    quick_all = (300, 70000)
+    quick_qual = (64, 256, 1024, 5000)
+    for i in prio:
+        d = seeds[i][2]
+        toks = ms.tokenize(d)
+        for (s, e, k) in toks:
+            cases.append(("trunctok", i, e))
+        for k in ms.closer_positions(d, toks):
+            cases.append(("delclose", i, k))
+        for k in ms.ident_targets(d, toks):
+            if ctx.quick():
+                ls = quick_all + (quick_qual if seeds[i][0] == "gen:qualified_types" else ())
+            else:
+                ls = ms.IDENT_LENGTHS
+            for ln in ls:
+                cases.append(("identlen", i, k, ln, False))
+            if not ctx.quick():
+                cases.append(("identlen", i, k, 300, True))
+    if not ctx.quick():
+        for i in gen_idx:
+            if i in prio:
+                continue
+            d = seeds[i][2]
+            toks = ms.tokenize(d)
+            for k in ms.closer_positions(d, toks):
+                cases.append(("delclose", i, k))
+            for k in ms.ident_targets(d, toks):
+                for ln in (257, 1025, 70000):
+                    cases.append(("identlen", i, k, ln, False))
     # random mutators
     per = ctx.n(200, 9000)
     for name in sorted(ms.MUTATORS) + ["havoc"]:
@@ -737,6 +814,7 @@ def run(ctx):
         watchdogs = 0
         asan_only_so = 0
         depth_tab = {}
+        multi_tab = {}
         samples = []
         wit_seen = {}
         need_gdb_missing = 0
@@ -765,6 +843,8 @@ def run(ctx):
             if rec["asan"] == "stack-overflow" and rec["plain"] in ("accept", "diagnosed"):
                 asan_only_so += 1
             triples.add((mut, oc, rec["diag"]))
+            if rec["case"][0] == "multi":
+                multi_tab[rec["case"][1]] = "%s/%s" % (rec["asan"], rec["plain"])
             if rec["case"][0] == "depth":
                 _, g, d, _l = rec["case"]
                 depth_tab.setdefault(g, {})[d] = "%s/%s" % (rec["asan"], rec["plain"])
@@ -814,6 +894,8 @@ def run(ctx):
             "documented_depth_limit": limit,
             "depth_results(asan/plain)": {g: {str(d): v for d, v in sorted(t.items())} for g, t in sorted(depth_tab.items())},
             "max_depth_handled_per_generator": max_ok,
+            "multi_file_results(asan/plain)": multi_tab,
+            "identifier_lengths": list(ms.IDENT_LENGTHS),
             "asan_only_stack_overflows_not_reported": asan_only_so,
             "crashes_after_the_front_end_accepted(bytecode generator; outside C09, not counted)": backend,
             "accept_vs_diagnose_disagreements_between_builds": disagree,
